@@ -62,8 +62,9 @@ def run_checks(wt, checks, tier="quick", seed="1"):
 def add(name, src, prop, checks):
     d = os.path.join(SEEDED, name)
     os.makedirs(d, exist_ok=True)
-    shutil.copy(os.path.join(src, "patch.diff"), os.path.join(d, "patch.diff"))
-    shutil.copy(os.path.join(src, "demo.py"), os.path.join(d, "demo.py"))
+    if os.path.abspath(src) != os.path.abspath(d):
+        shutil.copy(os.path.join(src, "patch.diff"), os.path.join(d, "patch.diff"))
+        shutil.copy(os.path.join(src, "demo.py"), os.path.join(d, "demo.py"))
     validate_and_run(name, prop, checks or [prop])
 
 
